@@ -563,6 +563,33 @@ func vScripts() []vScript {
 			}
 			dr.opLoop(0)
 		}},
+		{"c14-cleanup-ticks-while-gossip-is-queued", func(dr *vDriver, w *vWorld) {
+			// a tick is a pass: at every tick of this history the inbound observation queue (the node's has 50 slots) holds 30 peer
+			// observations that the loop has not taken yet; the pending own observation is still retried at five minutes, the entry of a
+			// message the node never observed is still removed
+			mem := members(4, 1)
+			dr.opClock(1000)
+			dr.opSetGS(w.set(mem, 0))
+			k := w.msg(0)
+			T := int64(1000)
+			dr.opMsg(k)
+			dr.opLoop(0)
+			other := w.msg(0)
+			dr.opObs(w.obsBy(mem[0], digestOfMsg(other, 0), other.TxHash[:]), "member")
+			busy := make(chan *gossipv1.SignedObservation, 50)
+			for i := 0; i < 30; i++ {
+				x := w.msg(0)
+				busy <- w.obsBy(mem[2], digestOfMsg(x, 0), x.TxHash[:])
+			}
+			quiet := dr.p.obsvC
+			dr.p.obsvC = busy
+			defer func() { dr.p.obsvC = quiet }()
+			for _, d := range []int64{31, 150, 125, 31, 31, 300, 31} {
+				if !tick(dr, &T, d) {
+					return
+				}
+			}
+		}},
 		{"fault-c14-store-unreadable-during-one-cleanup-tick", func(dr *vDriver, w *vWorld) {
 			// the store cannot be read while one cleanup tick runs (closed, reopened afterwards): a failed lookup is not "the quorum VAA is
 			// stored"; the pending own observation must still be there afterwards and be retried at five minutes
